@@ -304,3 +304,17 @@ func sortedKeys[V any](m map[string]V) []string {
 
 	return ks
 }
+
+// Standalone returns a context that is not attached to a worker run (native
+// fuzz targets); violations are collected in memory.
+func Standalone(propID string, seed int64) (c *Ctx, violations func() []*Violation) {
+	w := newWorkerState()
+	c = &Ctx{
+		Env:  &Env{Seed: seed, Tier: Thorough, RepoDir: "/repo", VerifDir: "/verif", Replay: true},
+		Prop: &Prop{ID: propID},
+		w:    w,
+		Rng:  rand.New(rand.NewSource(seed)),
+	}
+
+	return c, func() []*Violation { return w.violations }
+}
